@@ -242,9 +242,9 @@ dLUMemInit(fact_t fact, void *work, int_t lwork, int m, int n, int_t annz,
 	} else {
 	    xsup   = (int *)duser_malloc((n+1) * iword, HEAD, Glu);
 	    supno  = (int *)duser_malloc((n+1) * iword, HEAD, Glu);
-	    xlsub  = duser_malloc((n+1) * iword, HEAD, Glu);
-	    xlusup = duser_malloc((n+1) * iword, HEAD, Glu);
-	    xusub  = duser_malloc((n+1) * iword, HEAD, Glu);
+	    xlsub  = duser_malloc((n+1) * sizeof(int_t), HEAD, Glu);
+	    xlusup = duser_malloc((n+1) * sizeof(int_t), HEAD, Glu);
+	    xusub  = duser_malloc((n+1) * sizeof(int_t), HEAD, Glu);
 	}
 
 	if ( Glu->MemModel == USER &&
